@@ -288,16 +288,20 @@ type c11Conc struct {
 	Methods  []string `json:"methods"`
 	Texts    []Q      `json:"texts"`
 	Slow     bool     `json:"slow_server"`
+	Procs    int      `json:"gomaxprocs"`
 }
 
 func genC11Conc(t *rapid.T) *c11Conc {
 	c := &c11Conc{SplitLen: rapid.SampledFrom([]int{13, 14, 20, 40, 100, 450}).Draw(t, "split_len"), Slow: rapid.Bool().Draw(t, "slow")}
+	c.Procs = rapid.SampledFrom([]int{1, 1, 2, 16}).Draw(t, "gomaxprocs")
 	g := rapid.IntRange(2, 4).Draw(t, "goroutines")
 	for i := 0; i < g; i++ {
 		c.Methods = append(c.Methods, rapid.SampledFrom([]string{"Privmsg", "Notice", "Ctcp", "CtcpReply", "Action", "Privmsgf"}).Draw(t, "method"))
-		n := rapid.IntRange(effSplit(c.SplitLen)+1, 12*effSplit(c.SplitLen)).Draw(t, "len")
-		if n > 3000 {
-			n = 3000
+		// enough pieces to overflow the 32-slot queue, so that a caller is parked in the middle of its
+		// sequence while another one starts
+		n := rapid.IntRange(effSplit(c.SplitLen)+1, 80*effSplit(c.SplitLen)).Draw(t, "len")
+		if n > 4000 {
+			n = 4000
 		}
 		unit := fmt.Sprintf("%c%c%c ", 'a'+i, 'A'+i, '0'+i)
 		if rapid.Bool().Draw(t, "nospace") {
@@ -309,6 +313,10 @@ func genC11Conc(t *rapid.T) *c11Conc {
 }
 
 func runC11Conc(c *c11Conc) *Violation {
+	if c.Procs > 0 {
+		old := runtime.GOMAXPROCS(c.Procs)
+		defer runtime.GOMAXPROCS(old)
+	}
 	tc := newTestClient(cliOpts{Flood: true, Configure: func(cfg *client.Config) { cfg.SplitLen = c.SplitLen }})
 	defer tc.shutdown()
 	if err := tc.connect(); err != nil {
